@@ -267,6 +267,24 @@ def run(ctx, rep):
                     rep.discharged(key, "%s of carrier %s counted by exactly one accumulator" % (cls_name, cname)
                                    if member else "%s not in carrier %s: not counted" % (cls_name, cname),
                                    nontrivial=member)
+    # the auxiliary electricity that enters these flows is produced by the normalisation of components as a share
+    # output_s / total output of the declared auxiliaries: the flows are finite only if that division is guarded by
+    # `total output > 0` on the divisor itself (decided by the C06 pack, re-stated here)
+    from . import c06
+    from .common import Report
+    sub6 = Report("C06")
+    try:
+        c06.run(ctx, sub6)
+    except Exception as ex:        # noqa
+        rep.underivable("C01/aux/anchor", "the reassignment of auxiliary energy is analysable", why=str(ex)[:200])
+    for o in sub6.obligations:
+        if o.key == "C06/A3/guard" or (o.key.startswith("C06/A3/") and o.key.endswith("/share")):
+            k = "C01/aux/" + o.key[len("C06/A3/"):]
+            if o.status == "discharged":
+                rep.discharged(k, "auxiliary EPB electricity is a guarded share of the declared auxiliaries: " + o.clause, nontrivial=False)
+            else:
+                rep.violated(k, "every flow is finite and non-negative: auxiliary electricity is a share of the declared value, "
+                             "divided only by a positive total output", construct=o.construct, why=o.why)
     rep.analysed = {"entry": "energy_performance", "carrier_instances": n_inst,
                     "class_gate_evaluations": n_class_checks}
     rep.floor("carrier-instances", n_inst, 24)
